@@ -406,6 +406,9 @@ func c08row(d c08desc) string {
 func c08gen(c *h.Ctx, yield func(*h.Case)) {
 	r := c.Rng
 	emit := func(class string, d c08desc) {
+		if c.TooManyFails() && !strings.HasPrefix(class, "corpus") {
+			return
+		}
 		c.Count("class=" + class)
 		c.Count("role=" + d.role)
 		c.Count("suite=" + d.suite)
@@ -517,7 +520,7 @@ func c08gen(c *h.Ctx, yield func(*h.Case)) {
 	// combinations: an honest description with one to three random deviations
 	pick := func(l ...string) string { return l[r.Intn(len(l))] }
 	names := []string{"new:v", "new:a", "old:v", "old:a", "new:h", "new:o", "junk"}
-	for i := 0; i < c.Pick(120, 1500); i++ {
+	for i := 0; i < c.Pick(150, 5000); i++ {
 		role, suite, tlsv := pick("dial", "accept"), pick("ed", "ed", "g1", "g2"), pick("12", "13")
 		d := honest(role, suite, tlsv, pick("v", "v", "a"))
 		if role == "dial" {
@@ -558,6 +561,12 @@ func c08gen(c *h.Ctx, yield func(*h.Case)) {
 		// adversary model: honest nodes' signatures over *known* nonces are obtainable
 		// (relay, observation); here they are computed with the key, which the honest
 		// side cannot tell apart
+		if k, _, own := c08oracle(d); k != "" && !own {
+			// a relay in disguise: the known finding, already witnessed by the corpus
+			// (for real, through a running victim); not repeated here
+			i--
+			continue
+		}
 		emit("combo", d)
 	}
 	// malformed lines: both sides must refuse them
